@@ -49,8 +49,8 @@ STUBS = ['PipeSocket pair', 'recording queue behind the edge', 'PtrLookup '
 ASSUMPTIONS = ['validity predicate for addresses: dot-atom without dots or '
                'quoted-string local part, fixed domain']
 CELL_BUDGET_S = {'quick': 240, 'thorough': 2400}
-SAMPLE_P = 0.005
-MAX_WITNESSES = 3
+SAMPLE_P = 0.02
+MAX_WITNESSES = 6
 MAX_DECISIONS = 60000
 
 ATEXT = "!#$%&'*+-/=?^_`{|}~0123456789" \
@@ -348,8 +348,8 @@ def run_httpreply(cell):
     from slimta.smtp.reply import Reply
     from .c11 import FakeHTTPResponse
     qc.fresh_hub()
-    code = ['250', '251', '221', '450', '421', '452', '550', '535', '554',
-            '599', '200'][api.choice('code', 11)]
+    code = api.sstr('c0', 1, 0x32, 0x35) + api.sstr('c12', 2, 0x30, 0x39)
+    api.assume(code[0:1] != '3')
     msg = ['2.0.0 fine', 'try again later', '5.1.1 no such user; really',
            'weird = "quoted" text'][api.choice('msg', 4)]
     reply = Reply(code, msg)
